@@ -697,8 +697,8 @@ def async_cands(ctx, X, depth, tail):
         if wrapw > 0:
             c.append((w('and_then_wrap', 2) * wrapw, lambda: async_wrap_and_then(ctx, T, depth, tail)))
     if wrapw > 0:
-        c.append((w('map_wrap', 2) * wrapw, lambda: wrap_val(ctx, X, '|>', 'map', 'val', lambda u: u, depth, tail)))
-    return [(wt, b) for wt, b in c if wt > 0]
+        c.append((w('map_wrap', 2) * wrapw, lambda: wrap_val(ctx, X, '|>', 'map', 'val', lambda u: u, depth, tail), 'discards_err'))
+    return [x for x in c if x[0] > 0]
 
 
 def gate_cb(ctx, fn, failable=False, args=None, tf=None):
@@ -742,14 +742,25 @@ def async_wrap_and_then(ctx, T, depth, tail):
     return (a, Res(u))
 
 
-def gen_async_acts(ctx, X, n, depth, tail):
+PINNING = ('and_then', 'or_else', 'map_err')
+
+
+def gen_async_acts(ctx, X, n, depth, tail, pinned=True):
+    """pinned=False: the receiver is a re-wrapped `Ok(v)` of a try macro whose error type is still an
+    inference variable; wrappers whose inner chain may discard that error type are not generated until
+    an action has pinned it"""
     acts = []
     for i in range(n):
         last = (i == n - 1)
         cands = async_cands(ctx, X, depth, tail and last)
+        if not pinned:
+            cands = [x for x in cands if len(x) < 3 or x[2] != 'discards_err']
         if not cands:
             break
         a, nx = ctx.pick_w(cands)()
+        for aa in (a if isinstance(a, list) else [a]):
+            if aa.method in PINNING or any('::<' in o.expr or ': Result<' in o.expr for o in aa.operands):
+                pinned = True
         if isinstance(a, list):
             acts.extend(a)
         else:
@@ -809,7 +820,7 @@ def gen_branch(ctx, inv, index, depth, acts_per_step, same_type=None):
             n = acts_per_step() if (k > 0 or not pre) else max(0, acts_per_step() - 1)
             if k > 0:
                 n = max(1, n)
-            acts, cur = gen_async_acts(ctx, cur, n, 0, True)
+            acts, cur = gen_async_acts(ctx, cur, n, 0, True, pinned=(k == 0 or not inv.is_try))
             if k == 0:
                 acts = pre + acts
             elif not acts:
@@ -1182,7 +1193,7 @@ def render_code(inv):
         return render_tuple(n, '__res')
     if inv.flavor == 'opt':
         return 'match __res { Some(v) => format!("Some({})", %s), None => "None".to_string() }' % render_tuple(n, 'v')
-    return 'match __res { Ok(v) => format!("Ok({})", %s), Err(e) => format!("Err({})", w::rd(&e)) }' % render_tuple(n, 'v')
+    return '{ let __res: Result<_, w::ETok> = __res; match __res { Ok(v) => format!("Ok({})", %s), Err(e) => format!("Err({})", w::rd(&e)) } }' % render_tuple(n, 'v')
 
 
 def rust_str(s):
@@ -1223,6 +1234,7 @@ class Program:
         for (kname, kvar) in self.kind_list():
             if kname in stub_kinds:
                 continue
+            out.append('// @run %d %s' % (P, kname))
             if A:
                 out.append('pub fn run_%d_%s() -> ::std::pin::Pin<Box<dyn ::std::future::Future<Output = String>>> {\n    let __fut = %s;\n    Box::pin(async move { let __res = __fut.await; %s })\n}' % (P, kname, macro_expr(self.top, kname), rc))
                 runs.append('(Kind::%s, RunFn::Async(run_%d_%s))' % (kvar, P, kname))
@@ -1230,6 +1242,7 @@ class Program:
                 out.append('pub fn run_%d_%s() -> String {\n    let __res = %s;\n    %s\n}' % (P, kname, macro_expr(self.top, kname), rc))
                 runs.append('(Kind::%s, RunFn::Sync(run_%d_%s))' % (kvar, P, kname))
         _wcount[0] = 0
+        out.append('// @ref %d' % P)
         rexpr = ref_expr(self.top, top=True)
         if A:
             out.append('pub fn ref_%d() -> ::std::pin::Pin<Box<dyn ::std::future::Future<Output = String>>> {\n    Box::pin(async move { let __res = (%s).await; %s })\n}' % (P, rexpr, rc))
@@ -1248,6 +1261,7 @@ class Program:
         for e in self.ctx.evs:
             evs.append('EvMeta { ev: %d, kind: EvKind::%s, failable: %s, inv: %d, branch: %d, step: %d, snap: %s }' % (
                 e.ev, e.kind, 'true' if e.failable else 'false', e.inv, e.branch, e.step, 'true' if e.snap else 'false'))
+        out.append('// @meta %d' % P)
         out.append('pub static P%d: Prog = Prog {\n    id: %d, slice: %s,\n    text: %s,\n    runs: &[%s],\n    reference: %s,\n    invs: &[%s],\n    evs: &[%s],\n    size: %d, anchor: %s,\n};' % (
             P, P, rust_str(self.slice), rust_str(self.text()), ', '.join(runs), reff, ',\n        '.join(invs), ',\n        '.join(evs), self.size(),
             'None' if self.anchor is None else 'Some(%s)' % rust_str(self.anchor)))
